@@ -183,6 +183,8 @@ def totality_oracle(k, s):
     if k[0] == "emit":
         for t in o.split(" "):
             key, v = t.split("=", 1)
+            if key not in ("bash", "batch"):
+                continue
             if not (v == "err" or v.startswith("ok:")):
                 return "%s target: %s" % (key, v)
         return None
